@@ -5,7 +5,7 @@ from .. import core, coder, oracle as O, util as U
 from ..observe import run as brun
 
 PID = 'C06'
-SYMS = ['A', 'C', 'G', 'T', 'N', 'a', ' ', 'é']
+SYMS = ['A', 'C', 'G', 'T', 'N', 'a', ' ', 'é', '\n']
 
 
 def dec_case(r, k, G, acc, start, s, L, fast=False, chk=None, T=None, tab=None, walk=None):
@@ -269,7 +269,7 @@ def run(ctx):
     ctx.guard('long strands', ctx.res.ctr['long_strings'] > 1000)
     ctx.bounds = {'long_strands': '%d (filter graph of order 3-5, start) pairs: rule walks of %s nt with every single edit' % (len(jobs), '40' if ctx.quick else '40 and 150'),
                   'G1': 'all 158,824 (graph,start) classes incl. ill-formed graphs and dead starts',
-                  'automaton': 'every reachable vertex (shortest prefix and every walk prefix of length <= %d) x 8 symbols x continuations of length <= %d'
+                  'automaton': 'every reachable vertex (shortest prefix and every walk prefix of length <= %d) x 9 symbols x continuations of length <= %d'
                                % ((1, 1) if ctx.quick else (3, 2)),
                   'brute_force': 'all strings over ACGTN of length <= %d on classes with <= 2 reachable vertices' % (4 if ctx.quick else 6),
                   'bit_lengths': '0, 1, needed, needed+3', 'checks': 'absent, correct, wrong, check of a single-edit neighbour',
